@@ -7,6 +7,7 @@
 #include "clstepcore/baseType.h"
 #include <string>
 class SDAI_LOGICAL;
+enum AttrType_Enum { AttrType_Explicit = 0, AttrType_Inverse, AttrType_Deriving, AttrType_Redefining };   /* as in attrDescriptor.h */
 class TypeDescriptor { public:
   const char *Name(const char *schnm = 0) const;
   PrimitiveType NonRefType() const; PrimitiveType Type() const; PrimitiveType BaseType() const;
@@ -19,6 +20,6 @@ class AttrDescriptor { public:
   PrimitiveType NonRefType() const; PrimitiveType Type() const; PrimitiveType BaseType() const;
   int IsAggrType() const; PrimitiveType AggrElemType() const;
   const TypeDescriptor *AggrElemTypeDescriptor() const; const TypeDescriptor *ReferentType() const; const TypeDescriptor *DomainType() const;
-  const SDAI_LOGICAL &Optionality() const; int Derived() const;
+  const SDAI_LOGICAL &Optionality() const; int Derived() const; enum AttrType_Enum AttrType() const;
   const TypeDescriptor *NonRefTypeDescriptor() const; };
 #endif
